@@ -294,7 +294,7 @@ pub fn check_main(scn: &dyn Scenario, prop_arg: &str, opts: &CheckOptions) -> i3
     std::fs::create_dir_all(&run_dir).expect("cannot create run dir");
     let exe = std::env::current_exe().expect("current exe");
     let deadline_s: u64 = match opts.tier {
-        Tier::Quick => 240,
+        Tier::Quick => 900,
         Tier::Thorough => 3 * 3600,
     };
 
